@@ -10,7 +10,7 @@ from sx.fsmodel import FS
 
 PROPERTY = "C16"
 BOUNDS = {
-    "quick": "real asyncio loop in virtual time; exit moment k sym [0,12] loop turns after entry (every file operation of the model is a suspension point, so k lands before the saver first runs, inside each operation of a save, and in its sleep); body ends normally or raises; fault bits: connect fails (with a transport error, or - stub transport - interrupted by CancelledError), disconnect fails; transport kinds: stub, TCPTransport and SerialTransport on fake reader/writer, MQTTClient on a fake broker client; virtual durations D in {0,1,899,900,901,1800,2700} s in a first or a second session of the same gateway object; stub transport whose connect/disconnect suspend or not; persistence file present (2 nodes), missing, or unloadable (5 contents / read fault: the error propagates and the file stays untouched); one partition with file handles of symbolic speed (each handle 1 or 5 suspensions per operation)",
+    "quick": "real asyncio loop in virtual time; exit moment k sym [0,12] loop turns after entry (every file operation of the model is a suspension point, so k lands before the saver first runs, inside each operation of a save, and in its sleep); body ends normally or raises; fault bits: connect fails (with a transport error, or - stub transport - interrupted by CancelledError), disconnect fails (MQTT: with MqttError or with an OSError from a dead connection); stream transports: the peer may close at a message boundary before the context is left; transport kinds: stub, TCPTransport and SerialTransport on fake reader/writer, MQTTClient on a fake broker client; virtual durations D in {0,1,899,900,901,1800,2700} s in a first or a second session of the same gateway object; stub transport whose connect/disconnect suspend or not; persistence file present (2 nodes), missing, or unloadable (5 contents / read fault: the error propagates and the file stays untouched); one partition with file handles of symbolic speed (each handle 1 or 5 suspensions per operation)",
     "thorough": "k sym [0,20], D additionally {3599,3600,9000}",
 }
 REALISED = ["k and D are forked into concrete values (each is one path)"]
@@ -90,12 +90,14 @@ def make_transport(kind, connect_fault, disconnect_fault, suspend=True):
         return LifeTransport(connect_fault, disconnect_fault, suspend), None
     if kind in ("tcp", "serial"):
         writer = FakeWriter(disconnect_fault)
+        reader_box = {}
 
         async def factory(*a, **kw):
             await asyncio.sleep(0)
             if connect_fault:
                 raise OSError(111, "Connection refused")
-            return asyncio.StreamReader(), writer
+            reader_box["reader"] = asyncio.StreamReader()
+            return reader_box["reader"], writer
 
         if kind == "tcp":
             from aiomysensors.transport import tcp
@@ -109,7 +111,9 @@ def make_transport(kind, connect_fault, disconnect_fault, suspend=True):
             tr = serial.SerialTransport("/dev/ttyX")
             restore = (serial, "open_serial_connection", serial.open_serial_connection)
             serial.open_serial_connection = factory
-        tr.is_down = lambda: tr.writer is None or writer.closed
+        # "disconnected" = our end of the stream was really closed (not: the transport forgot its writer)
+        tr.is_down = lambda: writer.closed or "reader" not in reader_box
+        tr.reader_box = reader_box
         return tr, restore
     from harness import mqttkit
 
@@ -191,6 +195,9 @@ def sym_exit(inp, part):
     fs = FS(_initial_files(part["missing"]), yielder=_yield, latency=latency)
     wire(fs, False)
     suspend = part.get("suspend", True)
+    peer_closes = kind in ("tcp", "serial") and bool(inp.bool("peer_closes_before_exit"))
+    if kind == "mqtt" and disconnect_fault and inp.bool("broker_exit_oserror"):
+        disconnect_fault = "oserror"  # the broker connection is already dead: the client's exit fails below MQTT level
     tr, restore = make_transport(kind, connect_fault, disconnect_fault, suspend)
     state = {}
 
@@ -205,6 +212,13 @@ def sym_exit(inp, part):
                 entered = True
                 for _ in range(k):
                     await asyncio.sleep(0)
+                if peer_closes and getattr(tr, "reader_box", None) and "reader" in tr.reader_box:
+                    # the peer hangs up at a message boundary; the application sees the read error and leaves
+                    tr.reader_box["reader"].feed_eof()
+                    try:
+                        await tr.read()
+                    except AIOMySensorsError:
+                        pass
                 gw.nodes[9] = Node(9, 17, "2.1", sketch_name="late")
                 if body_raises:
                     raise BodyError("body")
@@ -250,7 +264,7 @@ def sym_exit(inp, part):
             raise Violation("connect-fault-foreign-exception:%s" % type(exc).__name__, str(exc)[:150])
         return ["connect-failed-clean", kind]
     # context was entered and left
-    if exc is not None and not isinstance(exc, (BodyError, AIOMySensorsError)):
+    if exc is not None and not isinstance(exc, (BodyError, AIOMySensorsError)) and not (disconnect_fault == "oserror" and isinstance(exc, OSError)):
         raise Violation("foreign-exception:%s" % type(exc).__name__, "'async with Gateway' raised %s: %s" % (type(exc).__name__, str(exc)[:150]))
     if body_raises and exc is None:
         raise Violation("body-exception-swallowed", "the body raised but nothing propagated")
